@@ -79,6 +79,14 @@ func (s *VerifSST) Prefetch(key []byte) bool {
 	return s.t.prefetchBlockForKey(key)
 }
 
+// WaitCache blocks until the block cache has applied every pending insertion
+// (the cache admits entries asynchronously).
+func (s *VerifSST) WaitCache() {
+	if s.lm.cache != nil && s.lm.cache.blocks != nil && s.lm.cache.blocks.rc != nil {
+		s.lm.cache.blocks.rc.Wait()
+	}
+}
+
 // BloomMayContain reports whether the table has a bloom filter and what it
 // answers for a user key (column-family prefixed, without timestamp).
 func (s *VerifSST) BloomMayContain(baseKey []byte) (has bool, may bool) {
